@@ -25,13 +25,33 @@ func (f *frame) call(ins ssa.Instruction, c *ssa.CallCommon) Val {
 		if rt, ok := recv.(Term); ok && rt.T.K == KIface {
 			u.oblige(f.key, "safe.nil", "", f.curReach, Term{"(not (= (i-tag " + rt.S + ") 0))", sBool}, f.pos(ins)+" method call on nil interface", "")
 		}
+		// the dynamic type is known in this unit (the interface value was made here from a concrete value)
+		if rt, ok := recv.(Term); ok {
+			if di, ok := u.ifaceDyn[rt.S]; ok {
+				if fn := u.eng.prog.LookupMethod(di.T, c.Method.Pkg(), c.Method.Name()); fn != nil && fn.Blocks != nil {
+					inRepo := fn.Package() != nil && strings.HasPrefix(fn.Package().Pkg.Path(), "gitlab.com/gomidi/midi/v2")
+					if inRepo || u.eng.contracts[funcKey(fn)] != nil {
+						return f.callFn(fn, nil, append([]Val{di.V}, args[1:]...), resT, ins)
+					}
+				}
+			}
+		}
 		if isErrorType(it) && c.Method.Name() == "Error" {
 			u.note("error.Error() returns an opaque string")
 			return u.declare("errstr", sStr)
 		}
 		if ct := u.eng.contracts[key]; ct != nil {
+			if ct.Opaque {
+				u.eng.opaqueUsed[key] = true
+				return f.opaqueResult(resT)
+			}
 			u.eng.trustedUsed[key] = true
 			return f.contractCall(ct, key, nil, args, resT, ins)
+		}
+		if rt, ok := recv.(Term); ok && rt.T.K == KIface {
+			if v, ok := f.devirtualise(rt, it, c, args[1:], resT, ins); ok {
+				return v
+			}
 		}
 		return f.havocCall(key, args, resT, ins)
 	}
@@ -298,6 +318,34 @@ func (f *frame) contractCallEnv(ct *Contract, key string, fn *ssa.Function, extr
 					v := u.declare("fresh_box", bs)
 					u.setHeap(f.cur, hn, hs, sto(h, r, v))
 				}
+			}
+		}
+	}
+	// fresh(<expression>) for something other than a result (e.g. a field that now holds a newly allocated slice)
+	for _, e := range ct.Ensures {
+		for _, fx := range freshArgs(e.X) {
+			if fx.Op == "ident" || freshDone[fx.String()] {
+				continue
+			}
+			freshDone[fx.String()] = true
+			pe := &SpecEnv{u: u, vars: vars, st: f.cur, old: oldSt, pkg: pkg, bound: map[string]Term{}, ctx: "fresh() in contract of " + key}
+			var ft Term
+			func() {
+				defer func() { recover() }()
+				ft = pe.eval(fx)
+			}()
+			if ft.T == nil {
+				continue
+			}
+			switch ft.T.K {
+			case KSlice:
+				el := ft.T.Go.Underlying().(*types.Slice).Elem()
+				r := u.alloc(f.cur, types.NewPointer(types.NewArray(el, 0)))
+				hn, hs, es := u.elemHeapName(el)
+				h := u.heap(f.cur, hn, hs)
+				inner := u.fresh("fresh_arr")
+				u.items = append(u.items, fmt.Sprintf("(declare-const %s (Array Int %s))", inner, u.tc.smt(es)))
+				u.setHeap(f.cur, hn, hs, sto(h, r, Term{inner, nil}))
 			}
 		}
 	}
@@ -794,6 +842,7 @@ func (f *frame) loopHeader(li *loopInfo) {
 			f.bad("loop-carried non-term value %s", phi.Name())
 		}
 	}
+	u.pendingLive = nil
 	mods := f.loopMods(li)
 	for _, h := range sortedKeys(mods) {
 		if _, ok := u.eng.heapSorts[h]; !ok {
@@ -853,6 +902,11 @@ func (f *frame) loopHeader(li *loopInfo) {
 			u.assumeLive(f.cur, t)
 		}
 	}
+	// heap well-formedness of the havocked heaps, relative to the (havocked) frontier
+	for _, pl := range u.pendingLive {
+		u.liveAxiom(pl[0], pl[1], u.nextRef(f.cur).S)
+	}
+	u.pendingLive = nil
 	// 3. assume invariant
 	env2 := f.invEnv(li.header, f.cur)
 	for _, inv := range ls.Invariants {
@@ -1258,9 +1312,100 @@ func (u *Unit) addElemHeaps(fn *ssa.Function, x *SX, add func(string, ssa.Value,
 // ---------------------------------------------------------------- defers
 
 func (f *frame) runDefers() {
+	u := f.u
 	for i := len(f.defers) - 1; i >= 0; i-- {
 		d := f.defers[i]
-		res := f.call(d, d.Common())
-		_ = res
+		reg := f.deferReach[d] // the defer statement was executed on this path
+		st0 := f.cur
+		reach0 := f.curReach
+		f.cur = st0.clone()
+		f.curReach = u.define(f.key+"_defer", and(reach0, reg))
+		if f.curReach.S != "false" {
+			f.call(d, d.Common())
+		}
+		c1 := f.curReach
+		st1 := f.cur
+		c0 := u.define(f.key+"_nodefer", and(reach0, not(reg)))
+		f.cur = u.mergeStates([]Term{c1, c0}, []*State{st1, st0})
+		f.curReach = reach0
 	}
+}
+
+// devirtualise: a method call on an interface whose implementations are all inside the repository is
+// executed per dynamic type (case split on the type tag); that the tag is one of them is an obligation.
+func (f *frame) devirtualise(recv Term, it types.Type, c *ssa.CallCommon, args []Val, resT *types.Tuple, ins ssa.Instruction) (Val, bool) {
+	u := f.u
+	iface, ok := it.Underlying().(*types.Interface)
+	if !ok {
+		return nil, false
+	}
+	impls := u.eng.implementations(iface)
+	if len(impls) == 0 {
+		return nil, false
+	}
+	st0 := f.cur
+	reach0 := f.curReach
+	var conds []Term
+	var sts []*State
+	var ress []Val
+	var tagOK []Term
+	for _, T := range impls {
+		tag := u.eng.typeTag(T)
+		cond := Term{fmt.Sprintf("(= (i-tag %s) %d)", recv.S, tag), sBool}
+		tagOK = append(tagOK, cond)
+		fn := u.eng.prog.LookupMethod(T, c.Method.Pkg(), c.Method.Name())
+		if fn == nil {
+			return nil, false
+		}
+		// receiver value
+		var rv Val
+		ts := u.tc.sortOf(T)
+		switch ts.K {
+		case KRef:
+			rv = Term{"(i-val " + recv.S + ")", ts}
+			u.nonNil[rv.(Term).S] = true
+		case KBV:
+			if ts.W == 64 {
+				rv = Term{"(i-bv " + recv.S + ")", ts}
+			} else {
+				rv = Term{fmt.Sprintf("((_ extract %d 0) (i-bv %s))", ts.W-1, recv.S), ts}
+			}
+		case KInt:
+			rv = Term{"(i-val " + recv.S + ")", ts}
+		default:
+			f.cur = st0.clone()
+			rv = u.load(f.cur, Term{"(i-val " + recv.S + ")", &Sort{K: KRef, Go: types.NewPointer(T)}})
+		}
+		f.cur = st0.clone()
+		f.curReach = u.define(f.key+"_dyn", and(reach0, cond))
+		res := f.callFn(fn, nil, append([]Val{rv}, args...), resT, ins)
+		conds = append(conds, f.curReach)
+		sts = append(sts, f.cur)
+		ress = append(ress, res)
+	}
+	u.oblige(f.key, "safe.dispatch", "", reach0, or(tagOK...), f.pos(ins)+" dynamic type of the "+types.TypeString(it, nil)+" value is one of the in-repository implementations", "")
+	f.cur = u.mergeStates(conds, sts)
+	f.curReach = u.define(f.key+"_dynret", or(conds...))
+	// merge results
+	var out Val
+	for i := len(ress) - 1; i >= 0; i-- {
+		if out == nil {
+			out = ress[i]
+			continue
+		}
+		if ress[i] == nil {
+			continue
+		}
+		if ta, ok := ress[i].(Tuple); ok {
+			tb := out.(Tuple)
+			nt := make(Tuple, len(ta))
+			for k := range ta {
+				nt[k] = f.iteVal(conds[i], ta[k], tb[k])
+			}
+			out = nt
+		} else {
+			out = f.iteVal(conds[i], ress[i], out)
+		}
+	}
+	return out, true
 }
